@@ -87,16 +87,35 @@ def production(ctx, quick, rnd):
                             out = "True" if ok is True else "returned %r" % (ok,)
                         except BaseException as ex:  # noqa
                             out = type(ex).__name__
-                        events.append({"cls": cls, "n": n2l(n), "r": n2l(rr), "s": n2l(ss), "out": out})
+                        events.append({"cls": cls, "n": n2l(n), "r": n2l(rr), "s": n2l(ss), "out": out, "der": []})
                         meta.append((c.name, cls, d, k, digest.hex(), rr, ss, dec_name))
                         ctx.nontrivial.add((c.name, cls, dec_name, rr, ss))
+                # damaged DER encodings of the genuine signature (long-form lengths on the 512/521-bit curves)
+                good = util.sigencode_der(r, s, n)
+                hl = 2 if good[1] < 0x80 else 2 + (good[1] & 0x7F)
+                blen = len(good) - hl
+
+                def enc_len(v):
+                    return bytes([v]) if v < 0x80 else (b"\x81" + bytes([v]) if v < 0x100 else b"\x82" + v.to_bytes(2, "big"))
+                muts = [b"\x30" + enc_len(blen + 1) + good[hl:], b"\x30" + enc_len(blen - 1) + good[hl:], b"\x30" + enc_len(blen + 1) + good[hl:] + b"\x00",
+                        good + b"\x00", good[:-1], b"\x30\x81" + bytes([blen]) + good[hl:] if blen < 0x80 else b"\x30\x82\x00" + bytes([blen]) + good[hl:],
+                        good[:hl + 1] + bytes([good[hl + 1] + 1]) + good[hl + 2:], good[:hl + 1] + bytes([good[hl + 1] - 1]) + good[hl + 2:],
+                        good[:hl] + b"\x02\x00" + good[hl:], b"\x31" + good[1:], good[:hl] + good[hl:].replace(b"\x02", b"\x03", 1)]
+                for mm in muts:
+                    try:
+                        ok = vk.verify_digest(mm, dg, sigdecode=util.sigdecode_der, allow_truncate=True)
+                        out = "True" if ok is True else "returned %r" % (ok,)
+                    except BaseException as ex:  # noqa
+                        out = type(ex).__name__
+                    events.append({"cls": "der-mutated", "n": n2l(n), "r": n2l(r), "s": n2l(s), "out": out, "der": b2l(mm)})
+                    meta.append((c.name, "der-mutated " + mm[:6].hex(), d, k, dg.hex(), r, s, "der"))
                 # long digest without truncation
                 try:
                     vk.verify_digest(util.sigencode_string(r, s, n), b"\x01" * (l + 1), allow_truncate=False)
                     out = "True"
                 except BaseException as ex:  # noqa
                     out = type(ex).__name__
-                events.append({"cls": "long-digest-no-truncate", "n": n2l(n), "r": n2l(r), "s": n2l(s), "out": out})
+                events.append({"cls": "long-digest-no-truncate", "n": n2l(n), "r": n2l(r), "s": n2l(s), "out": out, "der": []})
                 meta.append((c.name, "long-digest-no-truncate", d, k, "", r, s, "string"))
     bad, st = core.validate_traces(ctx.workdir, "ProdVerifyTrace", PROD_CFG, events, per_shard_min=300)
     ctx.add_stats(st)
